@@ -143,3 +143,17 @@ func (t *Tape) Fork() *Tape {
 	b := uint64(t.Choose(1 << 30))
 	return NewTape(a<<30 | b)
 }
+
+// RawTape returns the first k raw PRNG outputs of a recording tape with the
+// given seed.  Replaying them reproduces the recorded run exactly as long as it
+// makes at most k draws (replay reduces every value modulo the requested
+// range, which is what record mode does with the same raw value).  It is used
+// to recover the tape of a run whose process died before it could report.
+func RawTape(seed uint64, k int) []uint32 {
+	t := NewTape(seed)
+	out := make([]uint32, k)
+	for i := range out {
+		out[i] = uint32(t.next64() >> 11)
+	}
+	return out
+}
